@@ -93,6 +93,9 @@ def oracle_correlation(sched):
         if not r["body_ok"] or r["body_tok"] != r["resp_hdr"] or r["trailer"] != r["resp_hdr"]:
             res.append(("mixed-response-parts", "client %d: header/body/trailer do not belong to one response (hdr %r body %r ok=%s trailer %r)" % (
                 r["c"], r["resp_hdr"], r["body_tok"], r["body_ok"], r["trailer"]), rp))
+        if r.get("want_len", -1) >= 0 and abs(r["body_len"] - r["want_len"]) > 12:
+            # (the nonce in the token line has one to a few digits; the planned length is computed with one)
+            res.append(("response-body-cut", "client %d received %d body bytes of its own response, which has %d" % (r["c"], r["body_len"], r["want_len"]), rp))
         if r["resp_hdr"] in seen_resp:
             res.append(("response-delivered-twice", "response %s delivered to clients %d and %d" % (r["resp_hdr"], seen_resp[r["resp_hdr"]], r["c"]), rp))
         seen_resp[r["resp_hdr"]] = r["c"]
